@@ -304,6 +304,41 @@ def iter_next_features(body):
             ("iter_yield", "Some((position..end, &data[position..end])); position = end")]
 
 
+def get_eos_loop_features(loop_and_tail):
+    """the candidate loop of get_eos as its ordered checks, and the tail (provisional negative answers)"""
+    t = norm(loop_and_tail)
+    m = re.match(r"for (?P<mat>%s) in SENTENCE_BREAKER\.find_iter\(&s\) \{ let mut (?P<eos>%s) = (?P=mat)\?\.end\(\); " % (ID, ID), t)
+    if not m:
+        raise F.FactError("get_eos: loop head `for mat in SENTENCE_BREAKER.find_iter(&s) { let mut eos = mat?.end();` not recognised")
+    E = re.escape(m.group("eos"))
+    t = t[m.end():]
+    LT = r"(?:%s < s\.len\(\)|s\.len\(\) > %s)" % (E, E)
+    PL = r"parenthesis_level\(&s\[\.\.%s\]\)\?" % E
+    HNB = r"(?P=ck)\.has_non_break_word\(input, %s\)" % E
+    steps = [
+        ("veto: parenthesis_level(&s[..eos])? > 0 => continue", r"if (?:%s > 0|0 < %s|%s != 0|%s >= 1) \{ continue; \} " % (PL, PL, PL, PL)),
+        ("extend: eos < s.len() => eos += prohibited_bos(&s[eos..])?", r"if %s \{ %s \+= prohibited_bos\(&s\[%s\.\.\]\)\?; \} " % (LT, E, E)),
+        ("veto: ITEMIZE_HEADER.is_match(&s)? => continue", r"if ITEMIZE_HEADER\.is_match\(&s\)\? \{ continue; \} "),
+        ("veto: eos < s.len() && is_continuous_phrase(&s, eos)? => continue", r"if %s && is_continuous_phrase\(&s, %s\)\? \{ continue; \} " % (LT, E)),
+        ("veto: checker present and has_non_break_word(input, eos) => continue",
+         r"(?:if let Some\((?P<ck>%s)\) = checker \{ if %s \{ continue; \} \} |if checker\.map_or\(false, \|(?P<ck2>%s)\| (?P=ck2)\.has_non_break_word\(input, %s\)\) \{ continue; \} |if checker\.is_some_and\(\|(?P<ck3>%s)\| (?P=ck3)\.has_non_break_word\(input, %s\)\) \{ continue; \} )" % (ID, HNB, ID, E, ID, E)),
+        ("accept: return Ok(eos as isize)", r"return Ok\(%s as isize\); \} " % E),
+    ]
+    feats = []
+    for name, rx in steps:
+        mm = re.match(rx, t)
+        if not mm:
+            raise F.FactError("get_eos: expected step `%s` at: %s" % (name, t[:120]))
+        feats.append(name)
+        t = t[mm.end():]
+    t = re.sub(r"lazy_static!\s*\{\.\.\} ", "", t)
+    tail = r"if input_exceeds_limit \{ if let Some\((?P<m>%s)\) = SPACES\.find\(&s\)\? \{ return Ok\(-\((?P=m)\.end\(\) as isize\)\); \} \} Ok\(-\(s\.len\(\) as isize\)\)" % ID
+    if not re.fullmatch(tail, t):
+        raise F.FactError("get_eos: tail (provisional boundary: end of SPACES.find(&s) negated when the input exceeds the window, else -(s.len())) not recognised: %s" % t[:160])
+    feats.append("no candidate accepted: input_exceeds_limit and SPACES.find(&s)? = Some(m) => Ok(-(m.end())); otherwise Ok(-(s.len()))")
+    return feats
+
+
 def gen():
     raw = F.src(DET)
     t = F.strip_comments(raw, canonical=False)
@@ -384,7 +419,7 @@ def gen():
     head = re.sub(r"lazy_static!\s*\{.*?\n\s{8}\}", "lazy_static!{..}", head, flags=re.S)
     out.append("Definition get_eos_head : string := %s.\n" % coq_string(norm(head)))
     tail = re.sub(r"lazy_static!\s*\{.*?\n\s{12}\}", "lazy_static!{..}", body[m.start():], flags=re.S)
-    out.append("Definition get_eos_loop_and_tail : string := %s.\n" % coq_string(norm(tail)))
+    out.append("Definition get_eos_steps : list string := [ %s ].\n" % ";\n    ".join(coq_string(x) for x in get_eos_loop_features(tail)))
     for k, v in non_break_features(F.fn_body(t, "has_non_break_word", DET)):
         out.append("Definition %s : string := %s.\n" % (k, coq_string(v)))
     out.append("Definition parenthesis_level_body : string := %s.\n" % coq_string(norm(re.sub(r"lazy_static!\s*\{.*?\n\s{4}\}", "lazy_static!{..}", F.fn_body(t, "parenthesis_level", DET), flags=re.S))))
@@ -413,6 +448,12 @@ def gen():
     call = r"\((?:[^(){};]|\([^(){};]*\))*\)"
     ctors = re.findall(r"SentenceSplitter::[a-z_]+" + call + r"(?:\s*\.\s*[a-z_]+" + call + r")*", cli)
     out.append("Definition cli_splitter_ctors : list string := [ %s ].\n" % "; ".join(coq_string(norm(c)) for c in ctors))
-    loops = re.findall(r"for\s+[^{]*?\bin\s+self\.splitter\.split\([^{]*?\)\s*\{", cli)
+    loops = []
+    for mm in re.finditer(r"for\s+(\([^()]*\))\s+in\s+self\s*\.\s*splitter\s*\.\s*split\(([^(){}]*)\)\s*\{|self\s*\.\s*splitter\s*\.\s*split\(([^(){}]*)\)\s*\.\s*for_each\(\s*\|(\([^()|]*\))\|", cli):
+        # a `for` loop and `.for_each(..)` visit the sentences in the same order, one call per sentence
+        pat, arg = (mm.group(1), mm.group(2)) if mm.group(1) else (mm.group(4), mm.group(3))
+        loops.append("for %s in self.splitter.split(%s) {" % (pat.strip(), arg.strip()))
+    if len(re.findall(r"\.\s*split\(", cli)) != len(loops):
+        raise F.FactError("analysis.rs: a use of splitter.split(..) that is neither a for loop nor for_each over the sentences")
     out.append("Definition cli_split_loops : list string := [ %s ].\n" % "; ".join(coq_string(norm(c)) for c in loops))
     return "".join(out)
